@@ -304,7 +304,7 @@ func programs(maxLen int) [][]int {
 
 func exploreCase(r *evid.Run, c Case) {
 	var lastW *world
-	states := map[string]struct{}{}
+	states := sched.StateSet{}
 	ex := &sched.Explorer{
 		Mk: func() sched.Scenario {
 			var reuse []*fsmx.Inst
